@@ -86,7 +86,7 @@ def run_text(ctx):
     _run(ctx, ("C14:",), [("Slock.Properties.C14Text", THEOREMS_C14)], ["Slock.Properties.C14Text"])
 
 
-TH_FILES = ["zz_verif_callhandlers_test.go", "zz_verif_texthandlers_test.go", "zz_verif_engine_test.go", "zz_verif_engine_monitor_test.go", "zz_verif_engine_replay_test.go"]
+TH_FILES = ["zz_verif_inline_test.go", "zz_verif_callhandlers_test.go", "zz_verif_texthandlers_test.go", "zz_verif_engine_test.go", "zz_verif_engine_monitor_test.go", "zz_verif_engine_replay_test.go"]
 
 
 def classify_th(op, impl):
@@ -118,6 +118,22 @@ def run_texthandlers(ctx):
     if outdir:
         ctx.diff(outdir, "callhandlers", classify=classify_th)
         _monitors(ctx, outdir, "callhandlers", ("C13:",))
+
+
+THEOREMS_INLINE = ["Slock.C14I." + t for t in ("inline_decoders_eq", "inline_decoders_found", "inline_result_encoder_eq", "inline_encoders_found")]
+
+
+def run_inline(ctx):
+    """the server's hand-inlined LOCK/UNLOCK decoders and result writer: table equality (G1) + differential through Process() (D)"""
+    ctx.lake_build(["Slock.Properties.C14Inline"], exe=False)
+    ctx.audit("Slock.Properties.C14Inline", THEOREMS_INLINE)
+    exe = ctx.build_harness("server", only=TH_FILES)
+    if not exe:
+        return
+    outdir = ctx.run_harness(exe, "inline", 10 if ctx.tier == "quick" else 400, timeout=600)
+    if outdir:
+        ctx.diff(outdir, "inline", classify=lambda op, impl: tuple(op.split(" ")[1:4]))
+        _monitors(ctx, outdir, "inline", ("C14:",))
 
 
 def run_text_c13(ctx):
